@@ -195,6 +195,8 @@ func seqProfile0(prop, tier string) *SeqProfile {
 		}
 	case "C08":
 		return &SeqProfile{Prop: prop, NRandom: 0, Module: "TraceLin.tla", Cfg: "TraceLin.cfg",
+			Design: []DesignRun{{Module: "KlevConc.tla", Cfg: tierS(tier, "conc_q.cfg", "conc_t.cfg"), Workers: 16, Timeout: 20 * time.Minute,
+				Note: "KlevConc.tla: lock-level model with reader object identity; every result checked at its linearization point, full scan = abstract log at quiescence, head flag only on the last reader"}},
 			Extra: runC08,
 			Rule: "C08: a case is one concurrent history of the real code, built with the race detector: (i) seeded free-running mixes (2-5 goroutines x 3-8 calls of Publish, Consume, Get, GetByKey, ConsumeByKey, GetByTime, Delete, Sync, NextOffset, Stat, GC on prepared small-rollover logs with holes, warm and cold readers, KeepRewriteVersion on/off), (ii) window placement: a call A (Publish with/without rollover, Delete in head/reader segment, Consume with reader load, GC) is held at one of 19 pause points and two further calls run inside the window (or block on A's locks), then a closing scan. TLC (TraceLin) searches a linearization of every history against KlevAbs; a data race report of the race detector is a violation of its own.",
 			Assume: []string{"the Go race detector decides data-race freedom on the schedules that occur", "a call that does not finish within 25 ms inside a window is classified as blocked and stays pending until the window closes"},
@@ -253,7 +255,12 @@ func seqProfile0(prop, tier string) *SeqProfile {
 		g.Rollovers = []int64{60, 100, 150, 300, 5000}
 		g.TimeMode = "mono"
 		ploss := prop == "C06"
-		return &SeqProfile{Prop: prop, Gen: g, NRandom: tierN(tier, 40, 600), Module: "TraceCrash.tla", Cfg: "TraceCrash.cfg",
+		var design []DesignRun
+		if !ploss {
+			design = []DesignRun{{Module: "KlevFS.tla", Cfg: tierS(tier, "fs_q.cfg", "fs_t.cfg"), Workers: 16, Timeout: 30 * time.Minute,
+				Note: "KlevFS.tla: operations compiled to plans of file-system primitives; Crash1/Crash2 = every plan prefix and torn class of every enabled operation (and of the recovery plan itself) recovers to an allowed state; KF-C05-1 exempted by its signature"}}
+		}
+		return &SeqProfile{Prop: prop, Gen: g, Design: design, NRandom: tierN(tier, 40, 600), Module: "TraceCrash.tla", Cfg: "TraceCrash.cfg",
 			RunHist: func(r *SeqRun, h *History, tw *TraceWriter, root string) {
 				c := &crashRunner{r: r, h: h, tw: tw, root: root, torn: tierS(r.Tier, "classes", "all"), depth2: !ploss, plossOn: ploss, crashOn: !ploss}
 				c.run()
